@@ -366,7 +366,7 @@ func (rt vTargetRT) failed(rid string, err error) error {
 
 // The behaviour of the target for one request is chosen by the request itself
 // (header X-Verif-Behaviour): "" or "reply" = immediate 200, "delay:<ns>",
-// "hang" (until the request context ends), "fault:<text>" (transport error),
+// "hang" (until the request context ends), "fault:<text>" (transport error), "upgrade" / "upgrade:<ns>" (101, at once / late),
 // "status:<n>".
 func (rt vTargetRT) RoundTrip(req *http.Request) (*http.Response, error) {
 	s := rt.s
@@ -393,7 +393,15 @@ func (rt vTargetRT) RoundTrip(req *http.Request) (*http.Response, error) {
 		return nil, rt.failed(rid, errors.New(beh[len("fault:"):]))
 	case strings.HasPrefix(beh, "status:"):
 		status, _ = strconv.Atoi(beh[len("status:"):])
-	case beh == "upgrade":
+	case beh == "upgrade" || strings.HasPrefix(beh, "upgrade:"):
+		if strings.HasPrefix(beh, "upgrade:") { // the 101 comes late
+			d, _ := strconv.ParseInt(beh[len("upgrade:"):], 10, 64)
+			select {
+			case <-time.After(time.Duration(d)):
+			case <-req.Context().Done():
+				return nil, rt.failed(rid, context.Cause(req.Context()))
+			}
+		}
 		// 101 Switching Protocols with a writable body: the target's end of an in-memory connection that
 		// stays open until the proxy closes it
 		near, far := net.Pipe()
